@@ -13,13 +13,12 @@ from __future__ import annotations
 
 import copy
 import random
-import re
 from collections import Counter
 
 import numpy as np
 
 import lib
-from lib import Prop, coq_eval, coq_nat, coq_list, coq_bool, unsome
+from lib import Prop, coq_eval, coq_nat, coq_list, unsome
 import util
 import wmodel
 from util import TensorProduct, TTNS
